@@ -16,6 +16,7 @@ Definition ocall := ((Z * Z) * list oev)%type.
 Inductive case :=
 | WmC (late : Z) (ops : list wobs)
 | PipeC (nops : N) (ops : list pop) (streams : list (list sev))
+| RunC (nops : N) (routed : list (N * N * pbts)) (streams : list (list sev))
 | RegC (ids : list N) (wm0 : Z) (ops : list robs)
 | OpC (ids : list N) (m : N) (ops : list oop) (calls : list (list ocall)).
 
@@ -109,6 +110,28 @@ Definition check_pipe (nops : N) (ops : list pop) (streams : list (list sev)) : 
   flag (forallb (fun st => Nat.eqb (count_sw st) nw) streams && Nat.eqb (length streams) (N.to_nat nops)) 15 ++
   flag (forallb (check_stamp streams) (seq 0 nw)) 14.
 
+(* ---------- (e) a whole source runner reading a source to its end ----------
+   Wall-clock ticker watermarks may or may not occur, so only schedule-independent facts are compared: the keyed
+   events each operator receives (per-operator FIFO), that every broadcast watermark reaches every operator,
+   that every watermark is max(keyed timestamps sent before it, to any operator) - 1 ns, and that the
+   end-of-input watermark comes after every keyed event. *)
+Definition keyed_of (st : list sev) : list sev := filter (fun e => match e with SK _ _ => true | _ => false end) st.
+Fixpoint after_last_sw (st : list sev) (acc : list sev) : list sev :=
+  match st with
+  | [] => acc
+  | SW _ :: r => after_last_sw r []
+  | e :: r => after_last_sw r (acc ++ [e])
+  end.
+
+Definition check_run (nops : N) (routed : list (N * N * pbts)) (streams : list (list sev)) : list N :=
+  let expect := map (fun j => flat_map (fun x => match x with (o, id, p) => if (o =? N.of_nat j)%N then [SK id p] else [] end) routed)
+                    (seq 0 (N.to_nat nops)) in
+  let nw := match streams with st :: _ => count_sw st | [] => O end in
+  flag (list_eqb (list_eqb sev_eqb) (map keyed_of streams) expect &&
+        forallb (fun st => match keyed_of (after_last_sw st []) with [] => true | _ => false end) streams) 2 ++
+  flag (forallb (fun st => Nat.eqb (count_sw st) nw) streams && Nat.eqb (length streams) (N.to_nat nops) && Nat.leb 1 nw) 15 ++
+  flag (forallb (check_stamp streams) (seq 0 nw)) 14.
+
 (* ---------- (b) TimerRegistry ---------- *)
 Definition rops_of (ops : list robs) : list rop :=
   map (fun o => match o with RAdvO s p _ _ => RAdv s p | RSetO k t => RSet k t end) ops.
@@ -138,6 +161,7 @@ Fixpoint check_reg_ops (ids : list N) (i : nat) (all : list rop) (ops : list rob
 Definition check_reg (ids : list N) (wm0 : Z) (ops : list robs) : list N :=
   let all := rops_of ops in
   flag (wm0 =? r_wm (reg_new ids)) 5 ++
+  flag (wm0 =? spec_composite ids []) 18 ++
   check_reg_ops ids 0 all ops (reg_trace (reg_new ids) all).
 
 (* ---------- (c) Operator with a scripted recording handler ---------- *)
@@ -194,6 +218,7 @@ Definition check_case (c : case) : list N :=
   match c with
   | WmC late ops => check_wm late ops
   | PipeC nops ops streams => check_pipe nops ops streams
+  | RunC nops routed streams => check_run nops routed streams
   | RegC ids wm0 ops => check_reg ids wm0 ops
   | OpC ids m ops calls => check_op ids m ops calls
   end.
